@@ -119,7 +119,7 @@ def one_mode(ctx, kind, case, nsub, mode, raising_idx, desc, exc_type=Stop):
 
 def run(ctx):
     core.load_catii()
-    for _ in range(ctx.n(14, 80)):
+    for _ in range(ctx.n(14, 300)):
         case = c13.gen_multi(ctx.rng)
         scaff = [e for d in case["dense"] for e in d.shape[1:]]
         nsub = int(np.prod(scaff)) if scaff else 1
